@@ -269,8 +269,59 @@ def _self_reachable(cfg, l):
 PRINT_EXEMPT = {}
 
 
+def nesting_tests(ctx):
+    """R06.7: while template arguments are lexed, `,` and `>` end an argument when they are outside all parentheses.
+    The scanner's counter _paren_nesting can be negative there (get_identifier() swallows the `(` of `noexcept(` /
+    `decltype(` style keywords without counting it, the matching `)` is counted), so `outside` is `<= 0`; a test that
+    fails for -1 misses the terminator and the rest of the file is swallowed by error recovery."""
+    db = ctx.db
+    ctx.rule("R06.7", "every test of _paren_nesting that ends a template argument (guards `_state = S_end_nested`, or is conjoined with _parsing_template_params) also holds for a negative counter")
+    n = 0
+    for f in db.functions:
+        if not f.file.endswith("cppPreprocessor.cxx"):
+            continue
+        for node in f.walk():
+            if node.get("k") != "if":
+                continue
+            atoms = []
+
+            def leaves(e):
+                e = peel(e)
+                if e is not None and e.get("k") == "bin" and e.get("op") in ("&&", "||"):
+                    leaves(e["x"])
+                    leaves(e["y"])
+                elif e is not None:
+                    atoms.append(e)
+            leaves(node["c"])
+            pn = [a for a in atoms if (lambda c: c and ((field_of(c[1]) or "").endswith("_paren_nesting") or (field_of(c[2]) or "").endswith("_paren_nesting")))(_cmp(a))]
+            if not pn:
+                continue
+            ends = any((field_of((assigned_target(x) or [None])[0]) or "").endswith("CPPPreprocessor::_state") and "S_end_nested" in show(x) for x in walk(node.get("then") or {}))
+            tmpl = any((field_of(a) or "").endswith("_parsing_template_params") for a in atoms)
+            if not (ends or tmpl):
+                continue
+            for a in pn:
+                n += 1
+                op, l, r = _cmp(a)
+                if (field_of(r) or "").endswith("_paren_nesting"):
+                    op, l, r = {"<": ">", "<=": ">=", ">": "<", ">=": "<=", "==": "==", "!=": "!="}[op], r, l
+                k = const_int(r)
+                holds_neg = k is not None and {"<": -1 < k, "<=": -1 <= k, ">": -1 > k, ">=": -1 >= k, "==": -1 == k, "!=": -1 != k}[op]
+                ctx.ob("R06.7", "%s|%s|holds-for-negative-nesting" % (f.name, "ends-argument" if ends else "template-params"), bool(holds_neg), f.loc(a),
+                       "`%s` %s for _paren_nesting == -1" % (show(a), "holds" if holds_neg else "does NOT hold"))
+    ctx.floor("R06.7", "argument-terminator tests of _paren_nesting", n, 3)
+
+
+def _cmp(a):
+    a = peel(a)
+    if a is not None and a.get("k") == "bin" and a.get("op") in ("<", "<=", ">", ">=", "==", "!="):
+        return a["op"], strip_casts(peel(a["x"])), strip_casts(peel(a["y"]))
+    return None
+
+
 def run(ctx):
     db = ctx.db
+    nesting_tests(ctx)
     rebuild_rules(ctx, "R06.5")
     changed_flag_rules(ctx, "R06.6")
     ctx.rule("R06.1", "every field a (non-copy) constructor initialises from a parameter is read by the class's structural is_less() and is_equal()")
